@@ -67,3 +67,12 @@ def r8_end_to_end(run, tree):
 
 
 RULES = [r7_conversion, r1_protocols, r2_catalogue, r3_no_inherit_without_reconcile, r4_dtype_gate, r5_out, r6_helpers, r8_end_to_end]
+
+
+def t_numpy_space(run, tree):
+    run.rule("C10.T1", "thorough: np.power (exponents -2..3, both orders), square, reciprocal, negative over 15 units and np.multiply / np.true_divide over all ordered unit pairs, "
+             "called as numpy functions: the result denotes the function of the physical quantities", "D7 fold of Base/Array with dispatching numpy models and symbolic-scale units", "", floor=2)
+    qs.check_numpy_unit_space(run, tree)
+
+
+THOROUGH_RULES = [t_numpy_space]
